@@ -4,6 +4,7 @@ package main
 
 import (
 	"fmt"
+	"os"
 	"go/token"
 	"go/types"
 	"sort"
@@ -359,6 +360,9 @@ func mayReturnNil(w *World) map[*ssa.Function]map[int]bool {
 				if !may[fn][p] {
 					may[fn][p] = true
 					changed = true
+					if os.Getenv("VERIF_DEBUG") == "nt" {
+						fmt.Fprintf(os.Stderr, "may-nil(1) %s #%d\n", fn, p)
+					}
 				}
 			}
 		}
@@ -405,6 +409,9 @@ func mayReturnNil(w *World) map[*ssa.Function]map[int]bool {
 				if !may[fn][p] {
 					may[fn][p] = true
 					changed = true
+					if os.Getenv("VERIF_DEBUG") == "nt" {
+						fmt.Fprintf(os.Stderr, "may-nil(2) %s #%d\n", fn, p)
+					}
 				}
 			}
 		}
@@ -442,6 +449,9 @@ func mayReturnNil(w *World) map[*ssa.Function]map[int]bool {
 						if nilCheckedTwin(w, src, b) {
 							continue // `if f(x) == nil { … }; return f(x)` on a pure accessor
 						}
+						if nilTestedOnPath(rv, b) {
+							continue // `v := f(x); if v != nil { return v }`: the miss value is not handed on
+						}
 						if guardedByTupleFlag(src, b) {
 							continue // `if v, ok := f(x); ok { return v }`: the miss value is not handed on
 						}
@@ -451,6 +461,9 @@ func mayReturnNil(w *World) map[*ssa.Function]map[int]bool {
 						if !may[fn][ri] {
 							may[fn][ri] = true
 							changed = true
+							if os.Getenv("VERIF_DEBUG") == "nt" {
+								fmt.Fprintf(os.Stderr, "may-nil(3) %s #%d via %s\n", fn, ri, cal)
+							}
 						}
 					}
 				}
@@ -484,6 +497,29 @@ func nilCheckedTwin(w *World, src *ssa.Call, b *ssa.BasicBlock) bool {
 			continue
 		}
 		if c.exprKey(bo.X, nil, 0) != key {
+			continue
+		}
+		if (bo.Op == token.EQL && d.Succs[1] == cur) || (bo.Op == token.NEQ && d.Succs[0] == cur) {
+			return true
+		}
+	}
+	return false
+}
+
+// nilTestedOnPath: block b is only reached on the non-nil edge of a nil test of v itself.
+func nilTestedOnPath(v ssa.Value, b *ssa.BasicBlock) bool {
+	for cur := b; cur != nil && cur.Idom() != nil; cur = cur.Idom() {
+		d := cur.Idom()
+		iff, ok := d.Instrs[len(d.Instrs)-1].(*ssa.If)
+		if !ok || len(cur.Preds) != 1 || cur.Preds[0] != d {
+			continue
+		}
+		bo, ok := iff.Cond.(*ssa.BinOp)
+		if !ok || (bo.Op != token.EQL && bo.Op != token.NEQ) {
+			continue
+		}
+		k, isC := bo.Y.(*ssa.Const)
+		if !isC || !k.IsNil() || bo.X != v {
 			continue
 		}
 		if (bo.Op == token.EQL && d.Succs[1] == cur) || (bo.Op == token.NEQ && d.Succs[0] == cur) {
